@@ -547,6 +547,33 @@ def check_batch(prog: Program, res: Result) -> None:
     res.floor(R, 7)
 
 
+def check_index_domain(prog: Program, res: Result) -> None:
+    """The producer's index loop and the sequence it indexes agree on their length: `for idx in range(N)` reading `S[idx]`
+    has N == len(S) - also when N comes from a method (total_len()).  A count of a SUBSET of S (user-labelled frames, say)
+    stops early and the last frames are never delivered."""
+    R = "C13-once"
+    for cls_q in READERS:
+        ci = prog.cls(cls_q)
+        fi = ci.methods["run"]
+        for lp in walk_function(fi.node):
+            if not (isinstance(lp, ast.For) and isinstance(lp.iter, ast.Call) and norm(lp.iter.func) == "range" and len(lp.iter.args) == 1 and isinstance(lp.target, ast.Name)):
+                continue
+            idx = lp.target.id
+            seqs = sorted({norm(sub.value) for sub in ast.walk(lp) if isinstance(sub, ast.Subscript) and norm(sub.slice) == idx and isinstance(sub.ctx, ast.Load)})
+            if not seqs:
+                continue
+            bound = astq.expand_at(fi.node, lp.iter.args[0], lp)
+            if isinstance(bound, ast.Call) and isinstance(bound.func, ast.Attribute) and norm(bound.func.value) == "self" and not bound.args:
+                m = prog.lookup_method(ci, bound.func.attr)
+                rets = [r for r in walk_function(m.node) if isinstance(r, ast.Return) and r.value is not None] if m is not None else []
+                if len(rets) == 1:
+                    res.touch(m)
+                    bound = astq.expand_at(m.node, rets[0].value, rets[0])
+            ok = isinstance(bound, ast.Call) and norm(bound.func) == "len" and len(bound.args) == 1 and norm(bound.args[0]) in seqs
+            res.ob(R, ok, fi.qualname, f"range bound = len({seqs[0]})", f"the read loop runs over range(`{short(bound, 50)}`) but indexes `{seqs[0]}`: the bound is not the length of the "
+                   "sequence that is read, so frames at the end are never read (or the index runs past it)", f"{fi.module.relpath}:{lp.lineno}")
+
+
 def check_group_key(prog: Program, res: Result) -> None:
     """Top-down results arrive one crop at a time and are regrouped into frames by a dictionary.  A frame is identified by
     (video, frame index): the key of that dictionary contains BOTH (keyed by the frame index alone, frames of two videos
@@ -588,6 +615,7 @@ def check_group_key(prog: Program, res: Result) -> None:
 
 def check(prog: Program, res: Result) -> None:
     check_group_key(prog, res)
+    check_index_domain(prog, res)
     for r in READERS:
         check_reader(prog, res, r)
     check_ownership(prog, res)
